@@ -394,10 +394,18 @@ impl Scenario<'_> {
                 let Some(sub) = self.sub.as_mut() else { return vec![] };
                 let c = match c { Some(c) => Some(*c), None => sub.got.last().map(|d| d.cursor) };
                 let Some(c) = c else { return vec![] };
-                // acknowledgements are cumulative: only received cursors, never backwards
-                if c >= sub.got.len() as u64 || sub.last_ack.is_some_and(|a| c <= a) { return vec![] }
+                // acknowledgements are cumulative: only received cursors, never backwards; the SAME cursor again is a
+                // retransmitted acknowledgement (a client may repeat its EACK): it is sent and must change nothing
+                if c >= sub.got.len() as u64 || sub.last_ack.is_some_and(|a| c < a) { return vec![] }
+                let repeated = sub.last_ack == Some(c);
                 sub.last_ack = Some(c);
                 let _ = sub.ack_tx.send(Some(c));
+                if repeated {
+                    // nothing may follow a repeated acknowledgement: give a record that is wrongly let out the time to
+                    // arrive, so that it is observed under the acknowledgement that was in force when it was sent
+                    tokio::time::sleep(Duration::from_millis(25)).await;
+                    if let Some(sub) = self.sub.as_mut() { sub.drain(&self.parts); }
+                }
                 self.settle().await;
                 vec![format!("k{c}")]
             }
